@@ -13,6 +13,7 @@ import Gama.Lemmas.ReviseField
 import Gama.Lemmas.ReviseAbsReport
 import Gama.Lemmas.ReviseBridge
 import Gama.Lemmas.ReviseSolve
+import Gama.Lemmas.ReviseDeleted
 import Gama.Lemmas.ProjectEquationsExample
 import Mathlib.Analysis.SpecialFunctions.Sqrt
 namespace Gama.Props.C14
@@ -568,24 +569,15 @@ theorem C14_requirement_tables_agree [Zero K] (net : PE.Net K) (k : Nat) (o : PE
     (localRev (RevPE.netOf net).pts (RevPE.obOf o)).active = MinX.activeBasic (PE.ptsOf net) (o.toMinX k) :=
   RevPE.localRev_active net k o
 
-/-- **"Results", on the executed model — partial.**
+/-- **"Results", one inner call of `project_equations()`** (round 7, now without hypothesis).
     (1) `netSolve` (C01's model of `LocalNetwork` in front of the four solvers) reads the assembled
         problem only through `m`, `n`, the rows, `rhs_`, the cofactor blocks `activeCov()/m0²` of the
         clusters with active observations, and `min_x_` — for every algorithm;
     (2) assembling the network WITHOUT its passive observations (`RevPE.delObs`: rows/columns of the
         covariance matrices taken by C10's `activeCov`, positions of points and clusters kept) succeeds
-        iff assembling the network does, with the same numbering and `unknowns_`, and `netSolve` gives the
-        same answer for every algorithm and every regularisation list.
-    `_partial`, missing for `netSolve alg (pe (deleteItems net excluded)) = netSolve alg (pe net)`:
-    (a) `ActiveCovIdem` is a hypothesis (extensionality of the packed band storage is not proved);
-    (b) one inner call only: `PE.revise (delObs net) = delObs net` for a revised `net` (transfer of
-        `reviseCl_keepCl_obs` through `C14_revision_is_project_equations_revision`) and the
-        `singular_coords` recursion (same `prepare` ⇒ same verdict) are not composed;
-    (c) physically dropping the points with no group left and the emptied clusters renames the unknowns
-        `⟨position, coordinate⟩`: invariance of `Lin.passFrom` under an order-preserving renaming is not
-        proved (C14's `deleteItems` does drop them — id-based — and `C14_equals_deletion_independent_abs`
-        covers that at the level of the views). -/
-theorem C14_pe_solution_ignores_passive_partial [TrigScalar K] (net : PE.Net K) (hI : RevPE.ActiveCovIdem net)
+        when assembling the network does, with the same numbering and `unknowns_`, and `netSolve` gives the
+        same answer for every algorithm and every regularisation list. -/
+theorem C14_pe_inner_call_ignores_passive [TrigScalar K] (net : PE.Net K)
     (a : PE.Asm K) (h : PE.assemble net = .ok a) :
     (∀ (alg : Ls.Alg) (np1 np2 : Ls.Net.NetProblem K), np1.m = np2.m → np1.n = np2.n → np1.rows = np2.rows →
       np1.rhs = np2.rhs → Ls.Net.cofs np1 = Ls.Net.cofs np2 → np1.minx = np2.minx →
@@ -593,7 +585,75 @@ theorem C14_pe_solution_ignores_passive_partial [TrigScalar K] (net : PE.Net K) 
     ∃ a', PE.assemble (RevPE.delObs net) = .ok a' ∧ a'.idx = a.idx ∧ a'.list = a.list ∧
       ∀ (alg : Ls.Alg) (mx : List Nat),
         Ls.Net.netSolve alg { a'.np with minx := mx } = Ls.Net.netSolve alg { a.np with minx := mx } :=
-  ⟨fun alg np1 np2 => RevPE.netSolve_congr alg np1 np2, RevPE.netSolve_delObs net hI a h⟩
+  ⟨fun alg np1 np2 => RevPE.netSolve_congr alg np1 np2, RevPE.netSolve_delObs net (RevPE.activeCovIdem_all net) a h⟩
+
+/-! ## round 8: the whole call and the solvers on the deleted input -/
+
+/-- **`Cluster::activeCov()` of a block without passive observations is that block** (C10's model of the
+    packed band storage; band clamp `min(band, N-1)` included; NO hypothesis on `C` — what `activeCov`
+    returns is well formed, and two well-formed band matrices with the same `dim`, `band` and in-band
+    entries have the same buffer, `Cov.CovMat.ext_of_get`).  Round 7's hypothesis `ActiveCovIdem` is this. -/
+theorem C14_active_cov_of_active_block [Zero K] (C : Cov.CovMat K) (obs allTrue : List Cov.ObsInfo)
+    (hall : ∀ o ∈ allTrue, o = ⟨true, 1⟩) (hlen : allTrue.length = (Cov.activeIdx 1 obs).length) :
+    Cov.activeCov (Cov.activeCov C obs) allTrue = Cov.activeCov C obs :=
+  Cov.activeCov_idem C obs allTrue hall hlen
+
+/-- **the revision is stable on the deleted input**, in the executed model of `project_equations()`:
+    `revision_observations()` run on the revised network from which the passive observations were deleted
+    changes nothing (every observation left is usable; a stand-point that keeps a direction had two targets
+    and keeps every usable direction, so the single-direction rule counts the same set). -/
+theorem C14_pe_revision_stable [Zero K] (n : PE.Net K) :
+    PE.revise (RevPE.delObs (PE.revise n)) = RevPE.delObs (PE.revise n) :=
+  RevPE.revise_delObs_revise n
+
+/-- **Results equal those for the input with the excluded items deleted — executed model, every algorithm.**
+    `projectEquations net0 = .ok (np, u)` (the whole call: revision, linearisation, `prepare`,
+    `singular_coords`, recursion).  The excluded items are what `u.net` shows: the observations that are
+    passive after the last `revision_observations()`, the points `singular_coords` switched off
+    (`u.removed`).  The deleted input `{ delObs u.net with idx := idx0 }` = those observations gone
+    (rows/columns of the covariance matrices with them, `Cluster::activeCov`), those points unused, the
+    index fields ARBITRARY (a fresh process).  Then the call on the deleted input
+      * succeeds, in one inner call: nothing more is revised (`u'.net.clusters` = the deleted clusters,
+        all active), no point is singular (`u'.removed = []`, statuses unchanged);
+      * has the same `pocet_neznamych_` and the same table `unknowns_` (same name for every column);
+      * hands the solvers the same `m, n`, rows, `rhs_`, `min_x_`, cofactor blocks;
+      * **for every algorithm `netSolve alg np' = netSolve alg np`**: the same exception, or the same
+        answer field by field (`x`, `r` — one entry per ACTIVE observation on both sides —, `pvv`, `defect`,
+        the homogenised `A`, `b`, `q_xx`, `q_bb`).
+    With `C01_net_prepare` (the blocks `prepare` factorises are `activeCov()/m0²` of the clusters with
+    active observations) this is C01's solver façade on the output of the executed `project_equations()`.
+
+    `_partial` — the one thing missing for C14's id-based `deleteItems`:
+    (c) the deletion is POSITION-STABLE.  A removed point stays in `PD` as an entry with status `unused`,
+        an emptied cluster stays in `OD` as a cluster without observations (what a user gets by deleting
+        `<obs>`-level items and marking removed points; gama-local then reads them and ignores them).
+        Physically dropping the `<point>` / the emptied `<obs>` block renames the unknowns
+        `⟨position, coordinate⟩`, `⟨cluster number, ori⟩`; invariance of `Lin.passFrom`, `oriLoop`,
+        `ptLoop`, `singularFrom`, `fillFrom` under that order-preserving renaming is not proved.
+        A removed point that is LEFT in the file with its status (free, no observation) is also outside:
+        the call then needs a second inner call (`index = 0` ⇒ `singular_coords` removes it again).
+        Both are covered at the level of the views by `C14_equals_deletion_independent_abs` and, on the
+        program, by the oracle (gama-local on the deleted file, four algorithms).
+    Not in any model: the `vybocujici_abscl_` stage inside the program flow (C14-F1 lives there; the stage
+    is `C14_reported_abs` / `C14_abs_stage_stable` on `Rev`), IEEE rounding. -/
+theorem C14_pe_solution_equals_deletion_partial [TrigScalar K] (net0 : PE.Net K) (np : Ls.Net.NetProblem K)
+    (u : PE.Unknowns K) (h : PE.projectEquations net0 = .ok (np, u)) (idx0 : Lin.IdxState) :
+    ∃ np' u', PE.projectEquations { RevPE.delObs u.net with idx := idx0 } = .ok (np', u') ∧
+      (∀ alg : Ls.Alg, Ls.Net.netSolve alg np' = Ls.Net.netSolve alg np) ∧
+      u'.n = u.n ∧ u'.list = u.list ∧ u'.removed = [] ∧ u'.net.points = u.net.points ∧
+      u'.net.clusters = (RevPE.delObs u.net).clusters ∧
+      (∀ c ∈ u'.net.clusters, ∀ o ∈ c.obs, o.active = true) ∧
+      np'.m = np.m ∧ np'.n = np.n ∧ np'.rows = np.rows ∧ np'.rhs = np.rhs ∧ np'.minx = np.minx ∧
+      Ls.Net.cofs np' = Ls.Net.cofs np := by
+  obtain ⟨np', u', h1, S⟩ := RevPE.pe_deleted net0 np u h idx0
+  refine ⟨np', u', h1, S.solve, S.u_n, S.u_list, S.removed, S.points, S.clusters, ?_,
+    S.m, S.n, S.rows, S.rhs, S.minx, S.cofs⟩
+  rw [S.clusters]
+  intro c hc o ho
+  simp only [RevPE.delObs, List.mem_map] at hc
+  obtain ⟨c0, _, rfl⟩ := hc
+  simp only [RevPE.delCl, List.mem_filter] at ho
+  exact ho.2
 
 /-! ### non-vacuity, round 7 -/
 
@@ -641,16 +701,76 @@ example : (PE.revise peNet).clusters.map (fun c => c.obs.map (·.active)) = [[tr
 def peBad : PE.Net Rat := { peNet with clusters := [⟨none, ⟨1, 0, #[1]⟩, [⟨true, .direction, 0, 1, 0, 0⟩]⟩] }
 example : (PE.revise peBad).clusters.map (fun c => c.obs.map (·.active)) = [[false]] ∧
     (revise (RevPE.netOf peBad)).cls.map (fun c => c.obs.map (·.active)) = [[true]] := by decide +kernel
-/-- hypotheses of the partial "results" theorem on the levelling network of the `PE` examples (one
-    switched-off observation in a three-observation cluster): assembling succeeds, the block is normal -/
-example : RevPE.ActiveCovIdem (PE.revise PE.Ex.net1) := by
-  intro c hc
-  simp only [PE.revise, PE.Ex.net1, PE.reviseFrom, List.mem_cons, List.not_mem_nil, or_false] at hc
-  rcases hc with rfl | rfl <;> rfl
 attribute [local instance] PE.Ex.trigQ in
+/-- the inner-call theorem on the levelling network of the `PE` examples (one switched-off observation in a
+    three-observation cluster): assembling succeeds on it and on its `delObs` -/
 example : (match PE.assemble (PE.revise PE.Ex.net1) with | .ok a => some (a.np.m, a.np.n) | .error _ => none) = some (2, 2) ∧
     (match PE.assemble (RevPE.delObs (PE.revise PE.Ex.net1)) with
       | .ok a => some (a.np.m, a.np.clusters.map (·.active)) | .error _ => none) = some (2, [[true, true], []]) := by
   decide +kernel
+
+/-! ### non-vacuity, round 8: a correlated cluster with one excluded observation, evaluated by the kernel -/
+
+/-- levelling, `A` fixed, `B`, `C` free.  Cluster 1: four height differences `A→B`, `B→C`, `C→A`, `A→C`
+    with a TRIDIAGONAL covariance matrix (`CovMat(4, 1)`: variances 4, covariances 1 between neighbours);
+    the third observation is switched off in the input.  Cluster 2: one observation to a point that is not
+    in the network (made passive by the revision; the cluster is empty afterwards). -/
+def corNet : PE.Net Rat :=
+  { points := [⟨"A", ⟨0, 0, 100, .unused, .fixed⟩⟩, ⟨"B", ⟨0, 0, 110, .unused, .free⟩⟩, ⟨"C", ⟨0, 0, 105, .unused, .free⟩⟩]
+    clusters := [⟨none, ⟨4, 1, #[4, 1, 4, 1, 4, 1, 4]⟩,
+                  [PE.Ex.hd true 0 1 (1001/100), PE.Ex.hd true 1 2 (-499/100), PE.Ex.hd false 2 0 (-5),
+                   PE.Ex.hd true 0 2 (503/100)]⟩,
+                 ⟨none, ⟨1, 0, #[1]⟩, [PE.Ex.hd true 0 7 1]⟩]
+    m0 := 2, xNorth := 0, fuel := 10
+    idx := ⟨5, [(⟨0, .z⟩, 5), (⟨2, .z⟩, 4)]⟩ }
+
+/-- what the examples read off a call: the network it leaves -/
+def leftNet (r : Except PE.Err (Ls.Net.NetProblem Rat × PE.Unknowns Rat)) : Option (PE.Net Rat) :=
+  match r with | .ok (_, u) => some u.net | .error _ => none
+/-- … and the answer of an algorithm on the problem it hands over -/
+def answerOf (alg : Ls.Alg) (r : Except PE.Err (Ls.Net.NetProblem Rat × PE.Unknowns Rat)) :
+    Option (Option (List Rat × List Rat × Rat × Nat)) :=
+  match r with
+  | .ok (np, _) => some ((Ls.Net.netSolve alg np).toOption.map fun a => (a.x.toList, a.r.toList, a.pvv, a.defect))
+  | .error _ => none
+/-- the deleted input of `corNet`, written out: the third observation and its row/column of the band
+    matrix are gone (`CovMat(3, 1)`, the entry (2,3) of the sub-matrix is the old (2,4) = 0), the second
+    cluster is empty, a fresh process (`idx` empty) -/
+def corDel : PE.Net Rat :=
+  { corNet with
+    clusters := [⟨none, ⟨3, 1, #[4, 1, 4, 0, 4]⟩,
+                  [PE.Ex.hd true 0 1 (1001/100), PE.Ex.hd true 1 2 (-499/100), PE.Ex.hd true 0 2 (503/100)]⟩,
+                 ⟨none, ⟨0, 0, #[]⟩, []⟩]
+    idx := ⟨0, []⟩ }
+
+/-- the call on `corNet` succeeds; `delObs u.net` IS `corDel` up to `idx` (clusters, buffers of the band
+    matrices included): dimensions and bands, buffers, observed values and flags, point ids and statuses -/
+def delLeft (r : Except PE.Err (Ls.Net.NetProblem Rat × PE.Unknowns Rat)) : Option (PE.Net Rat) :=
+  (leftNet r).map RevPE.delObs
+attribute [local instance] PE.Ex.trigQ in
+example : (delLeft (PE.projectEquations corNet)).map (fun n => n.clusters.map fun c => [c.cov.dim, c.cov.band]) =
+    some (corDel.clusters.map fun c => [c.cov.dim, c.cov.band]) := by decide +kernel
+attribute [local instance] PE.Ex.trigQ in
+example : (delLeft (PE.projectEquations corNet)).map (fun n => n.clusters.map fun c => c.cov.buf.toList) =
+    some [[4, 1, 4, 0, 4], []] := by decide +kernel
+attribute [local instance] PE.Ex.trigQ in
+example : (delLeft (PE.projectEquations corNet)).map (fun n => n.clusters.map fun c => c.obs.map (·.value)) =
+    some (corDel.clusters.map fun c => c.obs.map (·.value)) := by decide +kernel
+attribute [local instance] PE.Ex.trigQ in
+example : (delLeft (PE.projectEquations corNet)).map (fun n => n.clusters.map fun c => c.obs.map (·.active)) =
+    some [[true, true, true], []] := by decide +kernel
+attribute [local instance] PE.Ex.trigQ in
+example : (delLeft (PE.projectEquations corNet)).map (fun n => n.points.map (·.id)) = some ["A", "B", "C"] := by
+  decide +kernel
+
+attribute [local instance] PE.Ex.trigQ in
+/-- … and the two calls give the same answer (envelope and Cholesky evaluated; `x`, `r`, `pvv`, `defect`):
+    2 unknowns, 3 residuals, defect 0 -/
+example : answerOf .env (PE.projectEquations corDel) = answerOf .env (PE.projectEquations corNet) := by decide +kernel
+attribute [local instance] PE.Ex.trigQ in
+example : answerOf .chol (PE.projectEquations corDel) = answerOf .chol (PE.projectEquations corNet) := by decide +kernel
+attribute [local instance] PE.Ex.trigQ in
+example : ((answerOf .env (PE.projectEquations corNet)).map fun a => a.map fun t => [t.1.length, t.2.1.length, t.2.2.2]) =
+    some (some [2, 3, 0]) := by decide +kernel
 
 end Gama.Props.C14
